@@ -148,18 +148,24 @@ def run(tier):
         desc['wall_s'] = round(time.time() - t1, 1)
         rep.configs.append(desc)
 
-    # fold the NOTE lines of all shards
-    agg = {}
+    # fold the NOTE lines of all shards: counters are summed, the per-operation CPU times become two evidence fields
+    agg, other, cpu = {}, [], {}
     for n in rep.notes:
-        if '=' in n and n.split('=')[1].isdigit():
-            k, v = n.split('=')
-            agg[k] = agg.get(k, 0) + int(v)
-    other = [n for n in rep.notes if not ('=' in n and n.split('=')[1].isdigit())]
+        k, _, v = n.rpartition('=')
+        if k and v.isdigit():
+            if k.startswith('time_ms_'):
+                cpu[k[8:]] = cpu.get(k[8:], 0) + int(v)
+            else:
+                agg[k] = agg.get(k, 0) + int(v)
+        else:
+            other.append(n)
     if agg.get('ref_overflow') or agg.get('ref_mismatch'):
         rep.harness_errors.append('reference integers overflowed or disagreed with native arithmetic: %r' % agg)
     if agg.get('deadline_skipped'):
         rep.exhaustive = False
     rep.notes = other + skipped + ['%s=%d' % kv for kv in sorted(agg.items())]
+    rep.extra['cpu_s_in_enumeration'] = round(sum(cpu.values()) / 1000.0, 1)
+    rep.extra['cpu_s_top_operations'] = {k: round(v / 1000.0, 1) for k, v in sorted(cpu.items(), key=lambda kv: -kv[1])[:12]}
     calls = sum(v.get('calls', 0) for v in rep.stats.values())
     rep.extra['evaluations'] = int(calls)            # library calls whose outcome was compared with the oracle
     rep.extra['cases'] = int(rep.total('run'))
